@@ -210,8 +210,37 @@ func observe(same bool, a, b *side) string {
 	return fmt.Sprintf("%s %d %d %s %s %s", res, rla, rlb, spec, ta, tb)
 }
 
+// ---------------------------------------------------------------- boundary sizes
+// bigMsg: root -> struct with dw data words (leading words = lead, rest zero) and pc pointers
+// (pointer 0 = empty struct when firstPtr).  The list-based model is quadratic on such structs,
+// so "big" cases only compare Equal with the answer the generator expects (kind big/T or big/F).
+func bigMsg(dw, pc int, lead []uint64, firstPtr bool) []byte {
+	body := make([]uint64, dw+pc)
+	copy(body, lead)
+	if firstPtr && pc > 0 {
+		body[dw] = rd.StructPtr(-1, 0, 0)
+	}
+	return rd.Words(append([]uint64{rd.StructPtr(0, uint16(dw), uint16(pc))}, body...)...)
+}
+
+func observeBig(kind string, a, b *side) string {
+	want := "F"
+	if strings.HasPrefix(kind, "big/T") {
+		want = "T"
+	}
+	got := equalObs(a.build(genT, 0), b.build(genT, 0), "r", "r")
+	back := equalObs(b.build(genT, 0), a.build(genT, 0), "r", "r")
+	if got == want && back == want {
+		return "big"
+	}
+	return "big-FAIL:" + got + back + "/want=" + want
+}
+
 func runLine(line string) string {
 	f := strings.Fields(line)
+	if len(f) == 14 && strings.HasPrefix(f[0], "big") {
+		return observeBig(f[0], parseSide(f[2:8]), parseSide(f[8:14]))
+	}
 	if len(f) != 14 {
 		return "bad-case"
 	}
@@ -301,7 +330,7 @@ func run(out *Out, r *Rand, tier string, replay []string) {
 		out.Close("replay")
 		return
 	}
-	n := 4500
+	n := 3500
 	if tier == "thorough" {
 		n = 40000
 	}
@@ -321,6 +350,32 @@ func run(out *Out, r *Rand, tier string, replay []string) {
 	limits := func(m *rd.Msg, tight bool) {
 		if tight {
 			m.T, m.D = limitsT[r.Intn(len(limitsT))], limitsD[r.Intn(len(limitsD))]
+		}
+	}
+	// boundary sizes: structs of 32767 / 32768 / 65535 data words and 32768 / 65535 pointers
+	for _, dw := range []int{32767, 32768, 65535} {
+		x := r.U64() | 1
+		for _, eq := range []bool{true, false} {
+			y, kind := x, "big/T"
+			if !eq {
+				y, kind = x^2, "big/F"
+			}
+			a := &side{m: &rd.Msg{Segs: [][]byte{bigMsg(dw, 2, []uint64{x}, true)}, Arena: "M"}, sel: "r"}
+			b := &side{m: &rd.Msg{Segs: [][]byte{bigMsg([]int{1, 40000, 65535}[r.Intn(3)], []int{1, 65535}[r.Intn(2)], []uint64{y}, true)}, Arena: "M"}, sel: "r"}
+			line := fmt.Sprintf("%s/d%d 0 %s %s", kind, dw, a.String(), b.String())
+			out.Case("big", line, observeBig(kind, a, b), "big", true)
+		}
+	}
+	for _, pc := range []int{32768, 65535} {
+		for _, eq := range []bool{true, false} {
+			kind := "big/T"
+			if !eq {
+				kind = "big/F"
+			}
+			a := &side{m: &rd.Msg{Segs: [][]byte{bigMsg(1, pc, []uint64{7}, true)}, Arena: "M"}, sel: "r"}
+			b := &side{m: &rd.Msg{Segs: [][]byte{bigMsg(1, 1, []uint64{7}, eq)}, Arena: "M"}, sel: "r"}
+			line := fmt.Sprintf("%s/p%d 0 %s %s", kind, pc, a.String(), b.String())
+			out.Case("big", line, observeBig(kind, a, b), "big", true)
 		}
 	}
 	for i := 0; i < n; i++ {
